@@ -109,11 +109,25 @@ def oracle_any(np, gcd, g, p0, p1):
 
 def run_code(np, g, lats, lons, alts=None, times=None, state=(), integ=()):
     import warnings
+    args = dict(lats=np.asarray(lats, float), lons=np.asarray(lons, float), alts=None if alts is None else np.asarray(alts, float),
+                times=None if times is None else np.asarray(times, float))
+    sv, iv = tuple(np.asarray(s, float) for s in state), tuple(np.asarray(v, float) for v in integ)
+    before = {k: (None if v is None else v.copy()) for k, v in args.items()}
+    sv0, iv0 = [a.copy() for a in sv], [a.copy() for a in iv]
     with warnings.catch_warnings():
         warnings.simplefilter('ignore')
-        return g.grid_trajectory(np.asarray(lats, float), np.asarray(lons, float),
-                                 None if alts is None else np.asarray(alts, float), None if times is None else np.asarray(times, float),
-                                 tuple(np.asarray(s, float) for s in state), tuple(np.asarray(v, float) for v in integ))
+        out = g.grid_trajectory(args['lats'], args['lons'], args['alts'], args['times'], sv, iv)
+    # frame: gridding reads the trajectory, it does not edit it (a caller that grids the same arrays at a second resolution
+    # must get the same totals)
+    for k, v in args.items():
+        if v is not None and not np.array_equal(v, before[k]):
+            raise RuntimeError(f'grid_trajectory changed its input array {k} in place: {before[k].tolist()} -> {v.tolist()}')
+    for name, now, was in (('state variable', sv, sv0), ('integrated variable', iv, iv0)):
+        for a, b in zip(now, was):
+            if not np.array_equal(a, b):
+                raise RuntimeError(f'grid_trajectory changed an input {name} array in place: {b.tolist()} -> {a.tolist()} '
+                                   '(gridding the same trajectory again loses that share)')
+    return out
 
 
 def idx_of(np, edges, v):
